@@ -419,6 +419,7 @@ def run(ctx):
         "features contain capacity and transport with time windows enforced for Solomon/Li&Lim (F2); the rounding flag selects exactly between rounded and "
         "raw Euclidean distance (F3, evaluated over the flag); no Dimensions value that received slot writes is dropped (F4, all crates).")
     ctx.explanation += ' The initial-solution reader visits every route token and every job (I1, no dropping adapter in the iterator types).'
+    ctx.explanation += ' Li&Lim request customers are fetched by a keyed lookup, never by a position computed from the id (P1 extension).'
     ctx.not_decided = "numeric equality of parsed values, Li&Lim pairing, initial-solution round trip."
     ctx.run("C13-F1", "record-field / builder-parameter liveness and distinct sources", f1_record_liveness, floor=15)
     ctx.run("C13-F2", "load type agreement; essential features (capacity, transport with time windows)", f2_load_types_and_features, floor=8)
